@@ -160,6 +160,7 @@ type RunResult struct {
 	Stats      *TaskStats       `json:"-"`
 	Switches   [4]int64         `json:"-"` // total, shared, dep, callback
 	Deadlock   bool             `json:"-"`
+	Crash      string           `json:"-"`
 	Races      int              `json:"-"`
 	Digest     uint64           `json:"-"`
 	SchedHash  uint64           `json:"-"`
@@ -237,8 +238,13 @@ func runTasksSim(fns []func(), ch vsimrt.Chooser, res *RunResult) *vsimrt.Sched 
 	sch := vsimrt.NewSched(ch)
 	sch.MaxSegs = 4_000_000
 	sch.Run(fns)
-	if len(sch.Escaped) > 0 {
-		panic(fmt.Sprintf("harness bug: panic escaped a task: %v", sch.Escaped[0]))
+	for _, ep := range sch.Escaped {
+		if ep.Root {
+			panic(fmt.Sprintf("harness bug: panic escaped root task %d: %v", ep.Task, ep.Val))
+		}
+	}
+	if len(sch.Escaped) > 0 && res != nil {
+		res.Crash = "unrecovered panic in a goroutine started by the library (the real process would die): " + panicText(sch.Escaped[0].Val)
 	}
 	if res != nil {
 		res.Trace = append(res.Trace, sch.Trace...)
@@ -300,7 +306,7 @@ func soloOutcomes(s *Script, pool []*Input, res *RunResult, stats *TaskStats) ([
 				stats.merge(c.st)
 			}
 		}
-	}}, seqChooser{}, nil)
+	}}, seqChooser{}, crashOnly(res))
 	return outs, viol
 }
 
@@ -325,7 +331,8 @@ func execC18(s *Script, ch vsimrt.Chooser) *RunResult {
 
 	var solo [][]Outcome
 	var soloViol []Violation
-	doSolo := func() { solo, soloViol = soloOutcomes(s, pool, res, nil) }
+	var soloRes RunResult
+	doSolo := func() { solo, soloViol = soloOutcomes(s, pool, &soloRes, nil) }
 	if s.SoloFirst {
 		doSolo()
 	}
@@ -362,7 +369,12 @@ func execC18(s *Script, ch vsimrt.Chooser) *RunResult {
 		res.Stats.merge(c.st)
 	}
 	_ = soloViol // the same monitors fire in the concurrent phase; solo ones would be duplicates
-	if res.Deadlock {
+	soloCrash := soloRes.Crash
+	if res.Crash != "" || soloCrash != "" {
+		if (res.Crash != "") != (soloCrash != "") {
+			res.addViol(Violation{Class: "concurrent-outcome", Symptom: "crash-differs", Detail: "an internal goroutine of the library panicked in one phase only; solo: '" + soloCrash + "' concurrent: '" + res.Crash + "'"})
+		}
+	} else if res.Deadlock {
 		res.addViol(Violation{Class: "deadlock", Symptom: "deadlock", Detail: "all tasks blocked on simulated primitives: some call never returns under this schedule"})
 	} else {
 		for ti := range s.Tasks {
@@ -370,6 +382,7 @@ func execC18(s *Script, ch vsimrt.Chooser) *RunResult {
 				if i >= len(conc[ti]) || i >= len(solo[ti]) {
 					continue
 				}
+				res.Stats.Judged["solo-vs-concurrent outcomes compared"]++
 				if !sameOutcome(&conc[ti][i], &solo[ti][i]) {
 					res.addViol(Violation{Class: "concurrent-outcome", Task: ti, OpIndex: i, OpKind: s.Tasks[ti][i].K,
 						Symptom: symptomOf(&conc[ti][i], &solo[ti][i]),
@@ -398,19 +411,32 @@ func execC18(s *Script, ch vsimrt.Chooser) *RunResult {
 // C17: repeat the subject script under perturbations
 // ---------------------------------------------------------------------------
 
-var c17Variants = []string{"immediate", "gc", "heap-churn", "new-goroutine", "pool-recycle", "interleaved"}
+var c17Variants = []string{"immediate", "gc", "heap-churn", "new-goroutine", "other-pool-stream", "after-other-calls", "internal-tasks-rescheduled", "interleaved"}
 
 var sink [][]byte
 
+// churn changes the layout of the heap: it punches holes into the spans of
+// the small size classes (so that later allocations come back in another
+// address order) and moves the allocation frontier of the large ones.
 func churn(seed uint64) {
 	r := rand.New(rand.NewPCG(seed, 99))
 	sink = sink[:0]
-	for i := 0; i < 200; i++ {
-		sink = append(sink, make([]byte, 1+r.IntN(1<<r.IntN(14))))
+	sizes := []int{8, 16, 24, 32, 48, 64, 80, 96, 112, 128, 144, 160, 176, 192, 208, 224, 256, 320, 384, 512}
+	var tmp [][]byte
+	for i := 0; i < 6000; i++ {
+		b := make([]byte, sizes[r.IntN(len(sizes))])
+		if r.IntN(3) == 0 {
+			sink = append(sink, b) // stays alive: a hole stays closed
+		} else {
+			tmp = append(tmp, b) // freed by the GC below: a hole opens
+		}
 	}
-	if r.IntN(2) == 0 {
-		sink = nil
+	for i := 0; i < 40; i++ {
+		sink = append(sink, make([]byte, 1+r.IntN(1<<r.IntN(15))))
 	}
+	tmp = nil
+	_ = tmp
+	runtime.GC()
 }
 
 //go:noinline
@@ -434,6 +460,10 @@ func execC17(s *Script, ch vsimrt.Chooser) *RunResult {
 		return res
 	}
 	subject := s.Tasks[0]
+	crashOf := func(r *RunResult) []Outcome {
+		// a run that crashed has one outcome: the crash
+		return []Outcome{{Enc: "CRASH " + r.Crash}}
+	}
 	runAlone := func(wrap func(func())) []Outcome {
 		var outs []Outcome
 		var viol []Violation
@@ -443,19 +473,30 @@ func execC17(s *Script, ch vsimrt.Chooser) *RunResult {
 			viol = c.viol
 			res.Stats.merge(c.st)
 		}
+		var local RunResult
 		runTasksSim([]func(){func() {
 			if wrap != nil {
 				wrap(body)
 			} else {
 				body()
 			}
-		}}, seqChooser{}, nil)
+		}}, seqChooser{}, &local)
+		if local.Crash != "" {
+			return crashOf(&local)
+		}
 		res.addViol(viol...)
 		return outs
 	}
 	ref := runAlone(nil)
 	compare := func(variant string, got []Outcome) {
 		res.Stats.Fired[variant]++
+		if len(got) != len(ref) {
+			k := subject[0].K
+			res.addViol(Violation{Class: "repeat", Task: 0, OpIndex: 0, OpKind: k, Pert: variant, Symptom: "crash-differs",
+				Detail:   "one execution ended in an unrecovered panic of an internal goroutine, the other did not (" + variant + ")",
+				Expected: clipStr(ref[0].key()), Observed: clipStr(got[0].key())})
+			return
+		}
 		for i := range subject {
 			if i >= len(got) || i >= len(ref) {
 				return
@@ -477,8 +518,35 @@ func execC17(s *Script, ch vsimrt.Chooser) *RunResult {
 	depth := int(s.PoolSeed % 97)
 	compare("new-goroutine", runAlone(func(f func()) { deepCall(depth, f) }))
 	vsimrt.SeedPools(s.PoolSeed^0xABCDEF, (s.PoolFresh+500)%1000)
-	compare("pool-recycle", runAlone(nil))
+	compare("other-pool-stream", runAlone(nil))
 	vsimrt.SeedPools(s.PoolSeed, s.PoolFresh)
+	if len(s.Tasks) > 1 {
+		// the subject again, after the other tasks' calls have run to
+		// completion (a different first call before the second call)
+		others := &Script{Prop: "C17", Tasks: s.Tasks[1:], Budget: s.Budget}
+		soloOutcomes(others, pool, nil, nil)
+		compare("after-other-calls", runAlone(nil))
+	}
+	{
+		// the subject alone again, but with the tasks it starts itself (if the
+		// code under test has internal goroutines) scheduled by the PRNG
+		var outs []Outcome
+		var viol []Violation
+		var local2 RunResult
+		sch := runTasksSim([]func(){func() {
+			c := newCtx(0, pool, false, s.Budget)
+			outs = c.runScript(subject)
+			viol = c.viol
+		}}, &rngChooser{r: rand.New(rand.NewPCG(s.PoolSeed, 5)), strategy: "uniform", meanSeg: 1 + int64(s.PoolSeed%200), targetSw: 100}, &local2)
+		if len(sch.TaskSteps()) > 1 {
+			if local2.Crash != "" {
+				outs = crashOf(&local2)
+			} else {
+				res.addViol(viol...)
+			}
+			compare("internal-tasks-rescheduled", outs)
+		}
+	}
 	if len(s.Tasks) > 1 {
 		conc := make([][]Outcome, len(s.Tasks))
 		ctxs := make([]*Ctx, len(s.Tasks))
@@ -495,7 +563,9 @@ func execC17(s *Script, ch vsimrt.Chooser) *RunResult {
 		for _, c := range ctxs {
 			res.Stats.merge(c.st)
 		}
-		if !res.Deadlock {
+		if res.Crash != "" {
+			compare("interleaved", crashOf(res))
+		} else if !res.Deadlock {
 			compare("interleaved", conc[0])
 		}
 	}
@@ -540,13 +610,44 @@ func genScript(prop string, seed uint64, run int, big bool) (*Script, *rand.Rand
 		}
 		s.Tasks = [][]Op{subject}
 		for i, n := 0, g.rng(1, 3); i < n; i++ {
-			s.Tasks = append(s.Tasks, g.taskScript(g.n(2), g.rng(1, 3), false))
+			t := g.taskScript(g.n(2), g.rng(1, 3), false)
+			if g.p(0.5) {
+				// calls of the subject's own kind with other arguments of the same palette
+				if d := catalogue[subject[len(subject)-1].K]; d != nil {
+					kind := d.name
+					if d.obj == "co" {
+						kind = "history:co"
+					} else if d.obj != "" {
+						kind = ""
+					}
+					if kind != "" {
+						t = append(g.focusOps(kind, 10+i), t...)
+					}
+				}
+			}
+			s.Tasks = append(s.Tasks, t)
 		}
 		s.Strategy = []string{"uniform", "adversary", "pct"}[g.n(3)]
 	case "C18":
 		nT := g.rng(2, 4)
 		for i := 0; i < nT; i++ {
 			s.Tasks = append(s.Tasks, g.taskScript(g.n(3), g.rng(1, 4), false))
+		}
+		if g.p(0.5) {
+			// focus: every task also makes a few calls of ONE kind near its
+			// start, with parameters from the run's shared palette, so that
+			// calls which agree on some arguments and differ in others overlap
+			focus := g.focusKind()
+			g.focusShare = g.p(0.5)
+			for i := range s.Tasks {
+				var pre []Op
+				for k, n := 0, g.rng(1, 2); k < n; k++ {
+					pre = append(pre, g.focusOps(focus, 10+i)...)
+				}
+				at := g.n(minInt(3, len(s.Tasks[i])+1))
+				s.Tasks[i] = append(append(append([]Op{}, s.Tasks[i][:at]...), pre...), s.Tasks[i][at:]...)
+			}
+			s.Note = "focus=" + focus
 		}
 		s.Strategy = []string{"uniform", "adversary", "adversary", "pct"}[g.n(4)]
 		s.SoloFirst = g.p(0.6)
@@ -563,12 +664,28 @@ func execScript(s *Script, r *rand.Rand) *RunResult {
 		ch = newRngChooser(r, s.Strategy, len(s.Tasks), 200000)
 	}
 	vsimrt.Tick()
+	var res *RunResult
 	switch s.Prop {
 	case "C12":
-		return execC12(s)
+		res = execC12(s)
 	case "C17":
-		return execC17(s, ch)
+		res = execC17(s, ch)
 	default:
-		return execC18(s, ch)
+		res = execC18(s, ch)
 	}
+	// the verdict is part of the event log that the determinism self-test and
+	// the cross-process comparison look at
+	for _, v := range res.Violations {
+		res.Digest = res.Digest*1099511628211 ^ strHash(v.Class+"/"+v.Symptom+"/"+v.OpKind)
+	}
+	return res
+}
+
+// crashOnly returns a scratch result whose only purpose is to carry the Crash
+// field back to r (the solo phase must not add its trace or switch counts).
+func crashOnly(r *RunResult) *RunResult {
+	if r == nil {
+		return nil
+	}
+	return r
 }
